@@ -54,7 +54,7 @@ theorem splitSem_of_run {k : MPS.SvdKernels 𝕜 ℝ} (hk : SvdKernel k) {tol : 
     (hrun : splitMatrixSvd k.dsvd k.dnorm k.dargsort M q0 q1 tol = .ok (u, s, v, q)) :
     SplitSem tol M q0 q1 u s v q := by
   have hc := hk.svd.on M q0 q1
-  have hne := shared_of_frob_pos H hpos
+  have hnz := anyNZ_of_frob_pos hpos
   have hd := C12.split_dims k.dnorm k.dargsort tol hc.shape H.hq0 H.hq1 H.hm H.hn H.hsp hrun
   have hw := split_weight k.dnorm k.dargsort tol hc H (hk.norm _) (hk.sort _) htol hpos hrun
   have hspos : 0 < s.length := by
@@ -70,13 +70,13 @@ theorem splitSem_of_run {k : MPS.SvdKernels 𝕜 ℝ} (hk : SvdKernel k) {tol : 
     C12.split_sparse_u k.dnorm k.dargsort tol hc.shape H.hq0 H.hq1 H.hm H.hn H.hsp hrun,
     C12.split_sparse_v k.dnorm k.dargsort tol hc.shape H.hq0 H.hq1 H.hm H.hn H.hsp hrun,
     ?_, ?_, hw.1, hw.2, ?_,
-    fun t j ht hj => (split_proj k.dnorm k.dargsort tol hc H hne hrun ht).1 j hj,
-    fun t i ht hi => (split_proj k.dnorm k.dargsort tol hc H hne hrun ht).2 i hi⟩
+    fun t j ht hj => (split_proj k.dnorm k.dargsort tol hc H hrun ht).1 j hj,
+    fun t i ht hi => (split_proj k.dnorm k.dargsort tol hc H hrun ht).2 i hi⟩
   · intro t t' ht ht'
     exact C12.split_isometry_u k.dnorm k.dargsort tol hc H.hq0 H.hq1 H.hm H.hn H.hsp hrun
       (by rw [hd.2.1]; exact ht) (by rw [hd.2.1]; exact ht')
   · intro t t' ht ht'
-    exact C12.split_isometry_v k.dnorm k.dargsort tol hc H.hq0 H.hq1 H.hm H.hn H.hsp hrun hne
+    exact C12.split_isometry_v k.dnorm k.dargsort tol hc H.hq0 H.hq1 H.hm H.hn H.hsp hrun hnz
       (by rw [hd.2.2.1]; exact ht) (by rw [hd.2.2.1]; exact ht')
   · intro h0 i j hi hj
     subst h0
